@@ -106,9 +106,11 @@ func (run *FuncRun) enterLoopHeader(st *State, b *ssa.BasicBlock, ord int) bool 
 	if hs.all && !spec.HasAssigns {
 		// objects private to this path may be written by earlier iterations of
 		// the body: their contents are not known at an arbitrary iteration either
-		st.private = map[string]bool{}
-		st.contains = map[string][]string{}
+		// (they stay out of reach of unknown code, so they remain private afterwards)
+		savedPriv, savedCont := st.private, st.contains
+		st.private, st.contains = map[string]bool{}, map[string][]string{}
 		st.HavocAll("loop body calls unknown code")
+		st.private, st.contains = savedPriv, savedCont
 	} else if spec.HasAssigns {
 		// loop assigns: pre-existing locations outside the clause keep their
 		// loop-entry contents (checked again at every back edge)
